@@ -210,7 +210,7 @@ def needed_gen_files(roots):
     return sorted(gens)
 
 
-def build(prop: str, driver: str | None, extra_targets=()) -> BuildResult:
+def build(prop: str, driver: str | None, extra_targets=(), extra_props=()) -> BuildResult:
     """gen tables, make Props/<prop>.vo and the extraction, build the driver.  Serialised by a lock."""
     res = BuildResult()
     os.makedirs(ML, exist_ok=True)
@@ -218,7 +218,7 @@ def build(prop: str, driver: str | None, extra_targets=()) -> BuildResult:
         fcntl.flock(lk, fcntl.LOCK_EX)
         env = dict(os.environ)
         env["PYTHONPATH"] = REPO + ":" + os.path.join(VERIF, "harness")
-        roots = ["Props/%s.v" % prop] + (["Extract/Extract%s.v" % driver] if driver else [])
+        roots = ["Props/%s.v" % prop] + ["Props/%s.v" % e for e in extra_props] + (["Extract/Extract%s.v" % driver] if driver else [])
         roots += [t[:-1] if t.endswith(".vo") else t for t in extra_targets]
         gens = needed_gen_files(roots)
         # only the tables this property depends on: a change elsewhere in /repo must not alarm here
@@ -246,7 +246,7 @@ def build(prop: str, driver: str | None, extra_targets=()) -> BuildResult:
                 if rc != 0:
                     res.model_ok = False
                     res.broken = "driver_%s" % driver.lower()
-        targets = ["Props/%s.vo" % prop] + list(extra_targets)
+        targets = ["Props/%s.vo" % prop] + ["Props/%s.vo" % e for e in extra_props] + list(extra_targets)
         rc, out = sh("timeout 2400 make -j16 %s" % " ".join(targets), cwd=COQ, timeout=2500)
         res.log += out[-4000:]
         if rc != 0:
@@ -260,6 +260,13 @@ def build(prop: str, driver: str | None, extra_targets=()) -> BuildResult:
                 res.broken = _broken_from_log(out) or targets[0]
             else:
                 res.theorems = parse_assumptions(os.path.join(COQ, "Props", prop + ".v"), out)
+                for e in extra_props:
+                    rc, out = sh("timeout 600 coqc -Q . PV Props/%s.v" % e, cwd=COQ, timeout=700)
+                    if rc != 0:
+                        res.proof_ok = False
+                        res.broken = _broken_from_log(out) or ("Props/%s.v" % e)
+                        break
+                    res.theorems += parse_assumptions(os.path.join(COQ, "Props", e + ".v"), out)
     return res
 
 
@@ -492,7 +499,7 @@ def run_property(mod, tier: str) -> int:
         out_lines.append(s)
 
     driver_name = getattr(mod, "DRIVER", None)
-    br = build(prop, driver_name, getattr(mod, "EXTRA_TARGETS", ()))
+    br = build(prop, driver_name, getattr(mod, "EXTRA_TARGETS", ()), getattr(mod, "EXTRA_PROPS", ()))
     if br.gate:
         br.proof_ok = False
         br.broken = "grep gate: " + br.gate
@@ -664,7 +671,7 @@ def run_property(mod, tier: str) -> int:
 
     # ---- evidence
     wall = time.time() - t0
-    nthm = max(len(br.theorems), count_theorems(os.path.join(COQ, "Props", prop + ".v")))
+    nthm = max(len(br.theorems), sum(count_theorems(os.path.join(COQ, "Props", x + ".v")) for x in [prop] + list(getattr(mod, "EXTRA_PROPS", ()))))
     ev = {
         "property_id": prop, "tier": tier, "seed": seed, "level": "proof",
         "coverage": {
